@@ -35,6 +35,7 @@ type variant struct {
 	delayed     bool // Parlia: the set announced at epoch block E is in effect from E+floor(|old|/2)+1; otherwise from E+1
 	period      bool // the registered entry carries the block period and timestamps must respect it
 	clique      bool // MSC: clique with votes; epoch length is registered, checkpoints list the signers in effect
+	bor         bool // Polygon Bor: fixed set per span (trust root carries the snapshot), proposer + backups, difficulty N-succession, no recent-signer rule
 }
 
 var variants = []*variant{
@@ -44,7 +45,13 @@ var variants = []*variant{
 	{name: "pixie", router: utils.PIXIECHAIN_ROUTER, period: true},
 	{name: "bytom", router: utils.BYTOM_ROUTER, sealChainID: true, delayed: true},
 	{name: "msc", router: utils.MSC_ROUTER, period: true, clique: true},
+	{name: "bor", router: utils.POLYGON_BOR_ROUTER, period: true, bor: true},
 }
+
+// epochKnown: the router is told where epoch (checkpoint / sprint-end) blocks are. The BSC
+// family is not: such a light client takes any header that carries validator bytes for an
+// epoch block, and the reference follows it (the listed set is adopted as an announcement).
+func (v *variant) epochKnown() bool { return v.clique || v.bor }
 
 func variantByName(n string) *variant {
 	for _, v := range variants {
@@ -70,6 +77,9 @@ const (
 	nUniverse    = 9 // validator keys that can ever be in a set
 	nOutsiders   = 2 // keys that are never in any set
 	blockPeriod  = 3
+	borSprint    = 64 // Bor: no sprint boundary lies inside a run (sprint-end headers need a Heimdall span proof)
+	borBackup    = 2  // Bor: extra delay per succession step
+	borDelay     = 4  // Bor: producer delay at sprint start
 	evmChainID   = 97
 	gasLimit     = 30000000
 	genesisClock = 946684800 // 2000-01-01 00:00:00 UTC, the bubble's start
@@ -136,6 +146,7 @@ type simChain struct {
 	byHash  map[ecommon.Hash]int
 	prevSet []ecommon.Address // the set in effect before the root's announcement (BSC family: PrevValidators[0])
 	rootNo  uint64
+	propIdx int // Bor: index of the span's current proposer in prevSet
 }
 
 func newSimChain(v *variant, seed uint64, polyID uint64, epoch uint64, set0, set1 int64) *simChain {
@@ -152,20 +163,68 @@ func newSimChain(v *variant, seed uint64, polyID uint64, epoch uint64, set0, set
 		// clique: the checkpoint lists the set already in effect
 		c.prevSet = rootSet
 	}
+	if v.bor {
+		// Bor: the trust root is an ordinary block right after a sprint start; its snapshot
+		// (validator set + proposer) comes with it
+		c.epoch = borSprint
+		c.rootNo = borSprint*200 + 1
+		c.prevSet = rootSet
+		c.propIdx = mod(set0, len(rootSet))
+		rootSet = nil
+	}
 	// the root is an epoch block sealed by the in-turn member of the set in effect before it
 	sealer := c.prevSet[c.rootNo%uint64(len(c.prevSet))]
+	if v.bor {
+		sealer = c.prevSet[c.propIdx]
+	}
 	h := c.blank(ecommon.BytesToHash(c.bytes("rootparent", 0, 32)), c.rootNo, genesisClock-3600, 0)
-	h.Difficulty = big.NewInt(2)
-	if !v.clique {
+	h.Difficulty = c.wantDifficulty(c.prevSet, c.rootNo, sealer)
+	if !v.clique && !v.bor {
 		h.Coinbase = sealer
 	}
 	h.Extra = c.extra(0, rootSet)
 	c.seal(h, c.keys[c.byAddr[sealer]])
 	n := &node{idx: 0, kind: "root", parent: -1, hdr: h, hash: h.Hash(), sealer: sealer, number: c.rootNo, td: new(big.Int).Set(h.Difficulty)}
-	n.raw = mustJSON(h)
+	n.raw = c.wire(h)
 	c.nodes = append(c.nodes, n)
 	c.byHash[n.hash] = 0
 	return c
+}
+
+// wire is the relayer's encoding of one header.
+func (c *simChain) wire(h *etypes.Header) []byte {
+	if c.v.bor {
+		return mustJSON(map[string]interface{}{"Header": h, "Proof": nil})
+	}
+	return mustJSON(h)
+}
+
+// entryLen: bytes per listed validator (Bor lists address + 20-byte voting power).
+func (c *simChain) entryLen() int {
+	if c.v.bor {
+		return 2 * addrLen
+	}
+	return addrLen
+}
+
+// wantDifficulty is the reference difficulty rule: 2 in turn / 1 out of turn; Bor: N minus
+// the sealer's distance behind the proposer.
+func (c *simChain) wantDifficulty(set []ecommon.Address, number uint64, sealer ecommon.Address) *big.Int {
+	if c.v.bor {
+		i := indexOf(set, sealer)
+		if i < 0 {
+			return big.NewInt(1)
+		}
+		return big.NewInt(int64(len(set) - c.succession(set, sealer)))
+	}
+	if len(set) > 0 && set[number%uint64(len(set))] == sealer {
+		return big.NewInt(2)
+	}
+	return big.NewInt(1)
+}
+
+func (c *simChain) succession(set []ecommon.Address, sealer ecommon.Address) int {
+	return (indexOf(set, sealer) - c.propIdx + len(set)) % len(set)
 }
 
 func mustJSON(v interface{}) []byte {
@@ -217,6 +276,9 @@ func (c *simChain) extra(salt int, vals []ecommon.Address) []byte {
 	e := append([]byte{}, c.bytes("vanity", salt, extraVanity)...)
 	for _, a := range vals {
 		e = append(e, a[:]...)
+		if c.v.bor {
+			e = append(e, append(make([]byte, addrLen-1), 10)...) // voting power 10
+		}
 	}
 	return append(e, make([]byte, extraSeal)...)
 }
@@ -282,7 +344,12 @@ func listed(h *etypes.Header) []ecommon.Address {
 	return out
 }
 
-func (c *simChain) isEpoch(number uint64) bool { return number%c.epoch == 0 }
+func (c *simChain) isEpoch(number uint64) bool {
+	if c.v.bor {
+		return (number+1)%c.epoch == 0 // sprint end
+	}
+	return number%c.epoch == 0
+}
 
 func contains(set []ecommon.Address, a ecommon.Address) bool {
 	for _, x := range set {
@@ -321,6 +388,9 @@ func (c *simChain) path(p *node) []*node {
 // parent is p, on p's fork. It returns the set in effect plus (BSC family) the most recently
 // announced set and the one before it.
 func (c *simChain) setFor(p *node, number uint64) (inEffect, announced, before []ecommon.Address) {
+	if c.v.bor {
+		return c.prevSet, c.prevSet, c.prevSet
+	}
 	path := c.path(p)
 	if c.v.clique {
 		return c.cliqueSet(path), nil, nil
@@ -438,11 +508,11 @@ func (c *simChain) judge(n *node) []string {
 		return append(broken, "malformed-extra")
 	}
 	vb := len(h.Extra) - extraVanity - extraSeal
-	if vb%addrLen != 0 {
+	if vb%c.entryLen() != 0 {
 		broken = append(broken, "validator-bytes-length")
-	} else if vb != 0 && !c.isEpoch(h.Number.Uint64()) {
+	} else if c.v.epochKnown() && vb != 0 && !c.isEpoch(h.Number.Uint64()) {
 		broken = append(broken, "validator-bytes-on-non-epoch")
-	} else if vb == 0 && c.isEpoch(h.Number.Uint64()) {
+	} else if c.v.epochKnown() && vb == 0 && c.isEpoch(h.Number.Uint64()) {
 		broken = append(broken, "epoch-block-without-validators")
 	}
 	sealer, ok := c.recoverSealer(h)
@@ -453,13 +523,10 @@ func (c *simChain) judge(n *node) []string {
 	if !contains(set, sealer) {
 		return append(broken, "unauthorized-signer")
 	}
-	if contains(c.recentSealers(p, len(set)/2), sealer) {
+	if !c.v.bor && contains(c.recentSealers(p, len(set)/2), sealer) {
 		broken = append(broken, "recent-signer")
 	}
-	want := int64(1)
-	if set[number%uint64(len(set))] == sealer {
-		want = 2
-	}
+	want := c.wantDifficulty(set, number, sealer).Int64()
 	if h.Difficulty == nil || !h.Difficulty.IsInt64() || h.Difficulty.Int64() != want {
 		broken = append(broken, "wrong-difficulty")
 	}
@@ -492,7 +559,7 @@ func (c *simChain) add(kind string, parent int, h *etypes.Header) *node {
 	if s, ok := c.recoverSealer(h); ok {
 		n.sealer = s
 	}
-	n.raw = mustJSON(h)
+	n.raw = c.wire(h)
 	if parent >= 0 && c.nodes[parent].td != nil && h.Difficulty != nil {
 		n.td = new(big.Int).Add(c.nodes[parent].td, h.Difficulty)
 	}
@@ -512,15 +579,33 @@ func (c *simChain) addNoop(kind string) *node {
 	return n
 }
 
-// honestNodes: the root and every valid header whose ancestors are all valid.
+// honestNodes: the root and every valid header whose ancestors are all valid (the headers
+// further blocks may be built on). For routers that do not know the epoch length this includes
+// a validly sealed header announcing a set outside an epoch block.
 func (c *simChain) honestNodes() []*node {
 	var out []*node
 	for _, n := range c.nodes {
-		if !n.noop && (n.kind == "root" || n.kind == "honest") {
+		if !n.noop && (n.kind == "root" || n.kind == "honest" || (n.kind == offEpochKind && len(n.broken) == 0)) {
 			out = append(out, n)
 		}
 	}
 	return out
+}
+
+const offEpochKind = "validators_on_non_epoch"
+
+// pure: the header and all its ancestors were produced by honest validators following the
+// simulated chain's own protocol (no off-epoch announcement on the way).
+func (c *simChain) pure(n *node) bool {
+	for {
+		if n.kind != "honest" && n.kind != "root" {
+			return false
+		}
+		if n.parent < 0 {
+			return true
+		}
+		n = c.nodes[n.parent]
+	}
 }
 
 // tips: honest nodes without honest children, heaviest first.
@@ -575,6 +660,9 @@ func (c *simChain) draft(p *node, sealerSel, setSel int64, salt int) *draft {
 	number := p.number + 1
 	set, announced, _ := c.setFor(p, number)
 	recent := c.recentSealers(p, len(set)/2)
+	if c.v.bor {
+		recent = nil
+	}
 	var eligible []ecommon.Address
 	for _, a := range set {
 		if !contains(recent, a) {
@@ -582,6 +670,9 @@ func (c *simChain) draft(p *node, sealerSel, setSel int64, salt int) *draft {
 		}
 	}
 	inTurn := set[number%uint64(len(set))]
+	if c.v.bor {
+		inTurn = set[c.propIdx]
+	}
 	var sealer ecommon.Address
 	var off []ecommon.Address
 	for _, a := range eligible {
@@ -600,11 +691,12 @@ func (c *simChain) draft(p *node, sealerSel, setSel int64, salt int) *draft {
 		sealer = eligible[mod(sealerSel/4, len(eligible))]
 	}
 	h := c.blank(p.hash, number, p.hdr.Time+blockPeriod+uint64(mod(sealerSel, 2)), salt)
-	if sealer == inTurn {
-		h.Difficulty = big.NewInt(2)
-	}
+	h.Difficulty = c.wantDifficulty(set, number, sealer)
 	var vals []ecommon.Address
-	if c.v.clique {
+	if c.v.bor {
+		// a backup producer may only seal after its turn's delay
+		h.Time += uint64(c.succession(set, sealer)) * borBackup
+	} else if c.v.clique {
 		if c.isEpoch(number) {
 			vals = set
 		} else if setSel != 0 {
